@@ -1,4 +1,5 @@
 import OapiVerif.Model.Strict
+import OapiVerif.Proofs.GoJsonEnc
 import OapiVerif.Gen.C12
 /-!
 C12 — Strict server delivers decoded requests and writes the declared responses.
@@ -100,3 +101,24 @@ theorem C12_tables_cover :
   decide +kernel
 
 end OapiVerif.Strict
+
+namespace OapiVerif.GoJson
+
+/-- "the body decoded according to the request's Content-Type …, equal to what the client sent", JSON class: the strict
+handler decodes the body into the request object's body type with `json.Unmarshal`; for what `json.Marshal` wrote from a
+stable value of that type this is the value itself. -/
+theorem C12_json_body_equals_sent (t : GoTy) (v : GoVal) (j : JVal) (hw : wf t = true) (ht : hasTy t v = true)
+    (hs : stable t v = true) (he : encode t v = some j) : decode t j = some v := by
+  obtain ⟨j', he', hd⟩ := enc_dec t v hw ht hs
+  rw [he] at he'
+  cases he'
+  exact hd
+
+/-- "a body that is the faithful encoding of the value", JSON responses: what the response writer marshals decodes, on
+the client, to the value the handler returned. -/
+theorem C12_json_response_body_faithful (t : GoTy) (v : GoVal) (hw : wf t = true) (ht : hasTy t v = true)
+    (hs : stable t v = true) : (encode t v).bind (decode t) = some v := by
+  obtain ⟨j, he, hd⟩ := enc_dec t v hw ht hs
+  simp [he, hd]
+
+end OapiVerif.GoJson
